@@ -156,6 +156,45 @@ class Machine:
     # -- creation ---------------------------------------------------------
     def op_new_doc(self, op: Dict[str, Any]) -> Any:
         spec = op["spec"]
+        if "member_of" in spec:
+            # a value that IS one of another document's own containers (same object)
+            src = self.docs.get(spec["member_of"])
+            if src is None or "json" not in src["spec"]:
+                return "skip"
+            conts = [(loc, v) for loc, v in _walk_containers(src["obj"]) if loc]
+            if not conts:
+                return "skip"
+            loc, obj = conts[spec["pick"] % len(conts)]
+            gspec = {"json": copy.deepcopy(D.get(src["spec"]["json"], loc))}
+            self.stats["docs_that_are_members_of_another"] += 1
+            self.docs[op["id"]] = {"spec": gspec, "obj": obj, "snap": D.snapshot(obj)}
+            return "ok"
+        if "graft_of" in spec:
+            # a different document built around some of another document's own sub-objects:
+            # same shape, other content, but the containers at the given paths are shared by identity
+            src = self.docs.get(spec["graft_of"])
+            if src is None or "json" not in src["spec"]:
+                return "skip"
+            obj = copy.deepcopy(spec["json"])
+            gjson = copy.deepcopy(spec["json"])
+            shared = 0
+            for loc in spec["share"]:
+                loc = tuple(loc)
+                try:
+                    theirs = D.get(src["obj"], loc)
+                    mine_parent = D.get(obj, loc[:-1])
+                    gparent = D.get(gjson, loc[:-1])
+                    if not isinstance(theirs, (list, dict)) or not loc:
+                        continue
+                    mine_parent[loc[-1]] = theirs
+                    gparent[loc[-1]] = copy.deepcopy(D.get(src["spec"]["json"], loc))
+                    shared += 1
+                except (KeyError, IndexError, TypeError):
+                    continue
+            if shared:
+                self.stats["docs_grafted_on_shared_subobjects"] += 1
+            self.docs[op["id"]] = {"spec": {"json": gjson}, "obj": obj, "snap": D.snapshot(obj)}
+            return "ok"
         if "wrap" in spec:
             src = self.docs.get(spec["wrap"])
             if src is None or "json" not in src["spec"]:
@@ -494,6 +533,13 @@ class Machine:
                 self.events.append(["drain", self.op_iter_next({"it": iid, "n": 10_000})])
                 self.stats["iters_drained_at_end"] += 1
         self.check_docs()
+
+
+def _walk_containers(v: Any, loc: tuple = ()):
+    if isinstance(v, (list, dict)):
+        yield loc, v
+        for k, c in (v.items() if isinstance(v, dict) else enumerate(v)):
+            yield from _walk_containers(c, loc + (k,))
 
 
 def _brief(nodes: List[Any], n: int = 6) -> str:
